@@ -108,8 +108,8 @@ def plan(tier, seed):
     def gen():
         for t in k1:
             for ts in edge:
-                # quick: full 108-vector product at every sixth reference time, the six covering vectors at the others
-                for o in (ALL_OPTS if (tier != "quick" or edge.index(ts) % 6 == 0) else SIX_OPTS):
+                # quick: full 108-vector product at one reference time, the six covering vectors at the other eleven
+                for o in (ALL_OPTS if (tier != "quick" or edge.index(ts) == 3) else SIX_OPTS):
                     yield ("call", t, ts, o, seed)
         for ti, t in enumerate(k2):
             for ts in k2_ts:
@@ -172,7 +172,7 @@ def plan(tier, seed):
         "reference_times_2_tokens": len(k2_ts),
         "one_char_texts": 2048 * len(cps) - (2048 if cps else 0),
         "model_absent_texts": len(absent),
-        "reference_times_full_option_product": len(edge) if tier != "quick" else len(edge) // 6,
+        "reference_times_full_option_product": len(edge) if tier != "quick" else 1,
     }
     return {"space": space, "cases": gen(), "chunk": 48, "hash_distinct": tier == "quick"}
 
